@@ -149,12 +149,18 @@ class Model:
             raise AnalysisError('%s: unexpected signature' % f.site)
         val = params[2]
         whole, line_guards, splitter, skip = [], [], None, None
+        ops = []
         linevar = None
         for st in f.node.body:
             if isinstance(st, ast.Expr) and isinstance(st.value, ast.Constant):
                 continue
             if isinstance(st, ast.If) and not st.orelse and len(st.body) == 1 and isinstance(st.body[0], ast.Raise):
                 whole.append((st.test, st.body[0]))
+                ops.append(('raise', st.test))
+                continue
+            if isinstance(st, ast.If) and not st.orelse and len(st.body) == 1 and isinstance(st.body[0], ast.Return) \
+                    and st.body[0].value is None:
+                ops.append(('return', st.test))
                 continue
             if isinstance(st, ast.For) and isinstance(st.target, ast.Name) and splitter is None:
                 it = st.iter
@@ -174,9 +180,12 @@ class Model:
                         continue
                     else:
                         raise AnalysisError('%s: statement outside the guard vocabulary: %s' % (f.site, norm(b)[:50]))
+                ops.append(('lines', None))
                 continue
             raise AnalysisError('%s: statement outside the guard vocabulary: %s' % (f.site, norm(st)[:50]))
-        return dict(func=f, value=val, whole=whole, line=line_guards, splitter=splitter, skip=skip, linevar=linevar)
+        if splitter is None:
+            raise AnalysisError('%s: no per-line loop found' % f.site)
+        return dict(func=f, value=val, whole=whole, line=line_guards, splitter=splitter, skip=skip, linevar=linevar, ops=ops)
 
     def line_pred_lang(self, test, var):
         """language of single lines for which `test` holds; adds `x[0].isspace()` to the vocabulary"""
@@ -223,11 +232,6 @@ class Model:
             if indexes and ok_line.accepts('') and index_error is None:
                 index_error = norm(test)
             ok_line = ok_line.minus(self.line_pred_lang(test, V['linevar']))
-        # whole-value guards
-        rej_whole = None
-        for test, _ in V['whole']:
-            pl = strlang.pred_lang(test, V['value'], self.alpha)
-            rej_whole = pl if rej_whole is None else rej_whole.union(pl)
         # accepted = first (B line)* with every line after the first in ok_line, minus whole-value rejections.
         # boundaries of splitlines inside the domain: \n, \r, \r\n.  A trailing boundary does not open a line.
         first = noboundary
@@ -265,5 +269,17 @@ class Model:
                 return True      # text ended with a boundary: no further line
             return ok_line.acc[q]
         lines_ok = rx.from_function(alpha, [], (0, 0, False, True), step, accepting)
-        accepted = lines_ok if rej_whole is None else lines_ok.minus(rej_whole)
+        # sequential composition of the guards: `if P: raise` removes L(P) from what is still being
+        # examined, `if P: return` accepts it outright, the line loop filters
+        remaining = rx.sigma_star(alpha)
+        accepted = remaining.complement()
+        for kind, test in V['ops']:
+            if kind == 'lines':
+                remaining = remaining.intersect(lines_ok)
+                continue
+            pl = strlang.pred_lang(test, V['value'], self.alpha)
+            if kind == 'return':
+                accepted = accepted.union(remaining.intersect(pl))
+            remaining = remaining.minus(pl)
+        accepted = accepted.union(remaining)
         return dict(V=V, accepted=accepted.intersect(dom), ok_line=ok_line, index_error=index_error)
